@@ -79,7 +79,7 @@ def bodies(rnd: random.Random, n_random: int = 40):
             out += [k.TunnellingRequest(communication_channel_id=ch, sequence_counter=sq, raw_cemi=cemi),
                     k.DeviceConfigurationRequest(communication_channel_id=ch, sequence_counter=sq, raw_cemi=cemi), k.RoutingIndication(raw_cemi=cemi)]
     for ft in TunnellingFeatureType:
-        out += [k.TunnellingFeatureGet(1, 2, ft), k.TunnellingFeatureSet(1, 2, ft, b"\x01"), k.TunnellingFeatureInfo(1, 2, ft, b"\x01\x02"),
+        out += [k.TunnellingFeatureGet(1, 2, ft), k.TunnellingFeatureSet(1, 2, ft, b"\x01\x00"), k.TunnellingFeatureInfo(1, 2, ft, b"\x01\x02"),
                 k.TunnellingFeatureResponse(1, 2, ft, data=b"\x00\x07")]
     out += [k.RoutingBusy(0, 20, 0), k.RoutingBusy(1, 65535, 0xFFFF), k.RoutingLostMessage(0, 1), k.RoutingLostMessage(1, 65535)]
     for st in SecureSessionStatusCode:
